@@ -327,13 +327,18 @@ func runScen(cd *caseDir, s *scen) ([]ev, *probe, error) {
 		time.Sleep(5 * time.Millisecond)
 		evs, _ = readLog(cd.log)
 	}
-	evs, err = readLog(cd.log)
-	if err != nil {
-		return evs, pr, err
-	}
+	// Final probes, in this order: socket inode, liveness, and only then the
+	// log. A daemon announces its exit (serve.beforeRemoveSocket) BEFORE it
+	// removes its socket, so whatever a probe may have seen of an exit that
+	// was under way is announced in the log that is read afterwards; a daemon
+	// that is "alive" without such a line had not decided to stop when probed.
 	pr.SockIno = inoAt(cd.sock)
 	for _, pid := range daemonPids(evs) {
 		pr.Alive[pid] = running(pid)
+	}
+	evs, err = readLog(cd.log)
+	if err != nil {
+		return evs, pr, err
 	}
 	// pause points that ran into the 20 s cap mean the schedule was not the intended one
 	last := map[int]int64{}
